@@ -517,6 +517,8 @@ structure PlainKey (k : Str) : Prop where
 /-- values which `ffprec` does not alter -/
 def PlainVal (v : Str) : Prop := ∀ c ∈ v, printable c = true
 
+instance (v : Str) : Decidable (PlainVal v) := by unfold PlainVal; infer_instance
+
 /-- number of blanks a FITS round trip appends to the value `v` stored under key `k` -/
 def padOf (k v : Str) : Nat :=
   if k.length ≤ 8 then 8 - (v.length + countQuotes v)
